@@ -46,6 +46,10 @@ def under (g : String) (f : FnShape) : List String :=
 def depths (f : FnShape) : List Nat :=
   (f.steps.filter fun s => s.kind == .check || s.kind == .fail || s.kind == .tail).map (·.guard.length)
 
+/-- the principal callees of the `let` initialisers / assignments that feed a guard (the exact initialisers, with
+their arguments, are in the pins) -/
+def guardInputs (f : FnShape) : List String := f.lets.map (·.name)
+
 /-- the validation functions of the code base: a discarded call to one of these is a dropped check -/
 def watch : List String :=
   ["validate", "validate_read", "validate_header", "validate_block", "validate_pow_only", "validate_header_ctx",
